@@ -275,6 +275,7 @@ type c12Case struct {
 	Posts     string `json:"posts,omitempty"`     // token form of []c12Post
 	Names     string `json:"names,omitempty"`     // driver: file names the k-th file script answers for
 	Src       string `json:"src,omitempty"`       // driver: hex token of the source URL the Fetcher reports
+	NSrc      int    `json:"nsrc,omitempty"`      // driver: number of sources on the command line (0 = 1); each is a copy of the profile
 }
 
 var c12DModes = []string{"", "templates", "full", "none"}
